@@ -169,6 +169,9 @@ impl FullNode {
     pub async fn init(&mut self) {
         self.routing.on_init().await;
         self.consensus.on_init().await;
+        // an empty disk and no configured peer make the consensus handler want to produce a genesis block at
+        // the next timer tick; the harness supplies the chain itself
+        self.consensus.generate_genesis_block = false;
         self.collect();
     }
 
